@@ -45,6 +45,43 @@ def main(tier, seed, replay=None):
         cases.append(c)
     results, nterms, nskip, hist = states.run_states(run, "C02", binp, cases, 2, lambda code: code in (2, 4, 5), "residuals")
     rterms, rhist = states.run_rankdef(run, "C02", binp, rng, 24 if tier == "quick" else 500, (4, 8))
+    # ANY shape and rank: as many or fewer samples than basis functions, with coinciding parameters (row-rank deficient) and user
+    # thresholds (truncation) — the residuals shown belong to the coefficients shown (Model/Numeric.check_own_resid: plain products)
+    wcases = []
+    for j in range(12 if tier == "quick" else 200):
+        fam = ["exp2c", "exp3", "cosmix", "exp2c"][j % 4]
+        M_ = len(FAMILIES[fam][0])
+        c = gen_problem(rng, quant=(8 if j % 3 else None), family=fam, N=[M_, M_ - 1, M_, 2][j % 4],
+                        eps=[None, 1e-6, 0.5, 1e-3][j % 4], weights=["none", "pos", "mixed"][j % 3])
+        sc = c["scalar"]
+        P_ = c["meta"]["P"]
+        same = [hx(1.5, sc)] * P_                       # coinciding parameters: identical basis columns
+        zero = [hx(0.0, sc)] * P_                       # exp(-0 x) = 1 = the constant column (families with a rate parameter)
+        c["ops"] = [["observe"], ["tables"], ["set", same], ["observe"], ["tables"], ["set", zero], ["observe"], ["tables"],
+                    ["set", c["model"]["init"]], ["observe"], ["tables"]]
+        c["id"] = 40000 + j
+        wcases.append(c)
+    wres = run_harness(binp, "scenario", wcases, os.path.join(COQ, "run", "C02"), timeout_ms=20000, tag="wide")
+    wterms, widx = [], []
+    for c, r in zip(wcases, wres):
+        if r.get("panic") is not None or r.get("timeout") or r["head"].get("build") != "ok":
+            run.violation("problem with as many or fewer samples than basis functions: construction / update panicked, hung or failed",
+                          {"case": c, "result": r})
+            continue
+        st = r["steps"]
+        for k in range(0, len(st) - 1):
+            if st[k]["op"] == "observe" and st[k + 1]["op"] == "tables":
+                t = num.own_resid_term(c, st[k]["v"], st[k + 1]["v"])
+                if t is not None:
+                    wterms.append(t)
+                    widx.append((c, r, k))
+    wcodes = coq_eval("C02", num.HEADER, wterms, per_file_timeout=1800)
+    for (c, r, k), code, t in zip(widx, wcodes, wterms):
+        if code != 0:
+            run.violation("N <= M problem, state at step %d: %s" % (k, "residuals are not W(Y - Phi C) for the coefficients the implementation itself reports"
+                                                                   if code == 5 else "shapes differ"),
+                          {"case": c, "step": k, "observe": r["steps"][k]["v"], "tables": r["steps"][k + 1]["v"], "coq_term": t})
+    run.coverage["states_with_samples_le_basis_functions"] = len(wterms)
     nwd = 0
     for c, r in zip(cases, results):
         if r.get("steps") and r["head"].get("build") == "ok":
